@@ -70,6 +70,30 @@ func c16BuildHistEval(c *c16BuildHistCase) (f *c16Finding, drift string) {
 	var added []part   // ground truth: what the harness handed to AddPart
 	var got []*big.Int // the slice the caller holds from the latest successful Secrets()
 	gotOk := false
+	// every result the caller was given and did not write into itself: the slice and a copy of what it held
+	type heldRes struct {
+		at   int
+		what string
+		live []*big.Int
+		copy []*big.Int
+	}
+	var held []heldRes
+	hold := func(k int, what string, sl []*big.Int) {
+		held = append(held, heldRes{k, what, sl, append([]*big.Int{}, sl...)})
+	}
+	type heldList struct { // the list of parts a ParseSecrets call returned
+		at   int
+		live [][]*big.Int
+		copy [][]*big.Int
+	}
+	var heldLists []heldList
+	unhold := func(sl []*big.Int) { // the caller writes into sl: results sharing storage with it are its own business from now on
+		for i := range held {
+			if len(held[i].live) > 0 && len(sl) > 0 && &held[i].live[0] == &sl[0] {
+				held[i].live, held[i].copy = nil, nil
+			}
+		}
+	}
 	hist := func(k int) string { return strings.Join(c.Ops[:k+1], " ") }
 	// flattening of the parts added so far, as the property demands it
 	isPacking := func(sec []*big.Int) bool {
@@ -124,6 +148,7 @@ func c16BuildHistEval(c *c16BuildHistCase) (f *c16Finding, drift string) {
 		realOk := err == nil
 		if realOk {
 			got, gotOk = sec, true
+			hold(k, "Secrets()", sec)
 		} else {
 			got, gotOk = nil, false
 		}
@@ -231,6 +256,12 @@ func c16BuildHistEval(c *c16BuildHistCase) (f *c16Finding, drift string) {
 					}
 				}
 			}
+			for _, pt := range parts {
+				hold(k, "a part returned by ParseSecrets", pt)
+			}
+			if err == nil {
+				heldLists = append(heldLists, heldList{k, parts, append([][]*big.Int{}, parts...)})
+			}
 			if !same {
 				key := "C16:builder-history:ParseSecrets-of-the-packing-gives-other-parts"
 				if !pred.Ok {
@@ -251,13 +282,37 @@ func c16BuildHistEval(c *c16BuildHistCase) (f *c16Finding, drift string) {
 			if !gotOk || len(got) == 0 {
 				return &c16Finding{Inconcl: true, What: "bad builder history: scribble without a non-empty result"}, drift
 			}
+			unhold(got)
 			got[0] = new(big.Int).Add(new(big.Int).Lsh(big.NewInt(1), 64), big.NewInt(1)) // the caller owns the slice it was given
+			for i := range held {                                                         // parts parsed out of this slice are views of it (commitment_builder.go:82): not judged after the write
+				if len(held[i].live) > 0 && len(got) > 1 && &held[i].live[0] == &got[1] {
+					held[i].live, held[i].copy = nil, nil
+				}
+			}
 		default:
 			return &c16Finding{Inconcl: true, What: "bad builder history: operation " + op}, drift
 		}
 	}
 	if f := secretsStep(len(c.Ops)-1, c.Fin, " and then"); f != nil {
 		return f, drift
+	}
+	// what earlier calls returned is still what it was (the specification's observations are values)
+	for _, h := range held {
+		for i := range h.live {
+			if h.live[i] != h.copy[i] {
+				return &c16Finding{Key: "C16:builder-history:earlier-result-changed-by-a-later-call",
+					What: fmt.Sprintf("one builder, history [%s] and then Secrets(): %s at call %d of the history changed under the caller's hands at element %d when later calls were made - what was packed / parsed no longer round-trips", strings.Join(c.Ops, " "), h.what, h.at+1, i)}, drift
+			}
+		}
+	}
+	for _, h := range heldLists {
+		for i := range h.live {
+			a, b := h.live[i], h.copy[i]
+			if len(a) != len(b) || (len(a) > 0 && &a[0] != &b[0]) {
+				return &c16Finding{Key: "C16:builder-history:earlier-result-changed-by-a-later-call",
+					What: fmt.Sprintf("one builder, history [%s] and then Secrets(): the list of parts returned by ParseSecrets at call %d of the history changed under the caller's hands (part %d) when later calls were made - what was parsed is no longer what was packed", strings.Join(c.Ops, " "), h.at+1, i)}, drift
+			}
+		}
 	}
 	return nil, drift
 }
@@ -362,41 +417,59 @@ func c16NewHHPool() *c16HHPool {
 	return p
 }
 
-// call performs one call with the pool's objects rewritten in place (or with fresh objects) and returns a COPY of the digest.
-func (p *c16HHPool) call(c c16HHCall) (d []byte, err error) {
+// c16HHHeld is a digest object as the library returned it, which the caller keeps holding.
+type c16HHHeld struct {
+	b []byte
+	i *big.Int
+}
+
+func (h c16HHHeld) now() []byte {
+	if h.i != nil {
+		if h.i.Sign() < 0 || h.i.BitLen() > 256 {
+			return []byte("not a digest")
+		}
+		return h.i.FillBytes(make([]byte, 32))
+	}
+	return h.b
+}
+
+// call performs one call with the pool's objects rewritten in place (or with fresh objects) and returns a COPY of the digest
+// and the returned object itself.
+func (p *c16HHPool) call(c c16HHCall) (d []byte, held c16HHHeld, err error) {
 	defer func() {
 		if r := recover(); r != nil {
 			err = fmt.Errorf("panic: %v", r)
 		}
 	}()
-	if c.Fresh {
-		d, pan, e := c16Digest(c16HHFn[c.Fn], c.input())
-		if pan != "" {
-			return nil, fmt.Errorf("panic: %s", pan)
-		}
-		return d, e // c16Digest hands out a fresh slice / FillBytes copy; nothing of the library's is held
-	}
 	tag, e := hex.DecodeString(c.Tag)
 	if e != nil {
-		return nil, e
+		return nil, held, e
 	}
 	if len(tag) > cap(p.tag) || len(c.Bytes) > 4 || len(c.Ints) > 4 {
-		return nil, fmt.Errorf("history call too large for the pool")
+		return nil, held, fmt.Errorf("history call too large for the pool")
 	}
 	switch c.Fn {
 	case "B":
+		args := p.argB[:len(c.Bytes)]
+		if c.Fresh {
+			args = make([][]byte, len(c.Bytes))
+		}
 		for i, hx := range c.Bytes {
 			v, e := hex.DecodeString(hx)
 			if e != nil || len(v) > cap(p.b[i]) {
-				return nil, fmt.Errorf("bad input %q", hx)
+				return nil, held, fmt.Errorf("bad input %q", hx)
+			}
+			if c.Fresh {
+				args[i] = v
+				continue
 			}
 			p.b[i] = p.b[i][:len(v)]
 			copy(p.b[i], v) // in place
-			p.argB[i] = p.b[i]
+			args[i] = p.b[i]
 		}
-		r := common.SHA512_256(p.argB[:len(c.Bytes)]...)
+		r := common.SHA512_256(args...)
 		if r == nil {
-			return nil, nil
+			return nil, held, nil
 		}
 		d = append([]byte{}, r...)
 		if c.Scrib {
@@ -404,31 +477,42 @@ func (p *c16HHPool) call(c c16HHCall) (d []byte, err error) {
 				r[i] = 0xAA
 			}
 		}
-		return d, nil
+		return d, c16HHHeld{b: r}, nil
 	case "I", "T":
+		args := p.q[:len(c.Ints)]
+		if c.Fresh {
+			args = make([]*big.Int, len(c.Ints))
+		}
 		for i, s := range c.Ints {
-			if _, ok := p.q[i].SetString(s, 10); !ok { // in place
-				return nil, fmt.Errorf("bad integer %q", s)
+			if c.Fresh {
+				args[i] = new(big.Int)
+			}
+			if _, ok := args[i].SetString(s, 10); !ok { // in place for the pool's numbers
+				return nil, held, fmt.Errorf("bad integer %q", s)
 			}
 		}
 		var r *big.Int
 		if c.Fn == "I" {
-			r = common.SHA512_256i(p.q[:len(c.Ints)]...)
+			r = common.SHA512_256i(args...)
 		} else {
-			p.tag = p.tag[:len(tag)]
-			copy(p.tag, tag) // in place
-			r = common.SHA512_256i_TAGGED(p.tag, p.q[:len(c.Ints)]...)
+			tg := tag
+			if !c.Fresh {
+				p.tag = p.tag[:len(tag)]
+				copy(p.tag, tag) // in place
+				tg = p.tag
+			}
+			r = common.SHA512_256i_TAGGED(tg, args...)
 		}
 		if r == nil {
-			return nil, nil
+			return nil, held, nil
 		}
 		d = r.FillBytes(make([]byte, 32))
 		if c.Scrib {
 			r.SetInt64(0xAAAA)
 		}
-		return d, nil
+		return d, c16HHHeld{i: r}, nil
 	}
-	return nil, fmt.Errorf("unknown function %q", c.Fn)
+	return nil, held, fmt.Errorf("unknown function %q", c.Fn)
 }
 
 // c16HashHistEval: every call's digest must be the digest of its contents at the time of the call. References: the same
@@ -475,8 +559,14 @@ func c16HashHistEval(c *c16HashHistCase) *c16Finding {
 		}
 	}
 	pool := c16NewHHPool()
+	helds := make([]c16HHHeld, len(c.Steps))
+	gots := make([][]byte, len(c.Steps))
+	descTo := func(k int) string {
+		return c16HHDesc(c, k)
+	}
 	for k, st := range c.Steps {
-		got, err := pool.call(st)
+		got, held, err := pool.call(st)
+		helds[k], gots[k] = held, got
 		desc := func() string {
 			var sb strings.Builder
 			for j := 0; j <= k; j++ {
@@ -514,7 +604,42 @@ func c16HashHistEval(c *c16HashHistCase) *c16Finding {
 		return &c16Finding{Key: "C16:hash-history:" + fn + ":digest-depends-on-earlier-calls",
 			What: fmt.Sprintf("calls in one process, the caller re-using (rewriting in place) its buffers [%s]: the last call returns %x, the same input hashed with fresh objects gives %x - the digest is not a function of the input sequence", desc(), got[:8], want[:8])}
 	}
+	// the digests the caller still holds (and did not overwrite itself) are what they were when they were returned
+	for k, st := range c.Steps {
+		if st.Scrib {
+			continue
+		}
+		if now := helds[k].now(); !bytes.Equal(now, gots[k]) {
+			fn := c16HHFn[st.Fn]
+			what := fmt.Sprintf("calls in one process [%s]: the digest object returned by call %d (%x) reads %x after the later calls - the caller, still holding it, sees another digest for that input", descTo(len(c.Steps)-1), k+1, gots[k][:8], now[:min(8, len(now))])
+			for j := k + 1; j < len(c.Steps); j++ {
+				if c.Steps[j].Fn == st.Fn && bytes.Equal(now, gots[j]) && c.Steps[j].contentKey() != st.contentKey() {
+					cl := c16DiffClass(fn, st.input(), c.Steps[j].input())
+					return &c16Finding{Key: "C16:hash-history:" + fn + ":held-digest-overwritten:" + cl, What: what + fmt.Sprintf(": the digest of the different input of call %d (%s): two different inputs, one digest in the caller's hands", j+1, cl)}
+				}
+			}
+			return &c16Finding{Key: "C16:hash-history:" + fn + ":held-digest-overwritten", What: what}
+		}
+	}
 	return nil
+}
+
+func c16HHDesc(c *c16HashHistCase, k int) string {
+	var sb strings.Builder
+	for j := 0; j <= k && j < len(c.Steps); j++ {
+		s := c.Steps[j]
+		if j > 0 {
+			sb.WriteString("; ")
+		}
+		sb.WriteString(c16HHFn[s.Fn] + " " + c16Show(s.input()))
+		if s.Fresh {
+			sb.WriteString(" (fresh objects)")
+		}
+		if s.Scrib {
+			sb.WriteString(" (result overwritten by the caller)")
+		}
+	}
+	return sb.String()
 }
 
 // c16HashHistories: CALL rows (pre-image of every call of the alphabet: conformance) and HHIST rows (the histories).
